@@ -419,6 +419,45 @@ theorem ready_dispatches (s : St) (e : Event) (t : Tok) (hsel : e.selOk = true) 
     simp only [ioGet_ioSet, hsel, hwr]
     rcases hev with hev | hev <;> simp [hev, optItem, afterTake, Gen.dispatchWriteableMoves]
 
+/-! ## the reactor answer is not a free parameter: kernel report → reactor event → dispatch -/
+
+/-- Table obligation (regenerated from reactor.cpp for epoll, poll and select): every kernel report over the bits
+IN, PRI, OUT, ERR, HUP (for select: read/write/except set membership) that ends a wait for readability
+(`readDone`: IN, ERR or HUP) is translated to a reactor event carrying `in` or `err`, and every report that ends a
+wait for writability to one carrying `out` or `err`; in particular a bare hang-up is never translated to the
+empty event. -/
+theorem kernel_report_not_lost (b : Backend) (k : Fin 32) :
+    (k.val &&& readDone b ≠ 0 → (kernelToEvent b 0 k.val).rd = true ∨ (kernelToEvent b 0 k.val).err = true) ∧
+    (k.val &&& writeDone b ≠ 0 → (kernelToEvent b 0 k.val).wr = true ∨ (kernelToEvent b 0 k.val).err = true) := by
+  cases b <;> (revert k; decide +kernel)
+
+/-- … and a registration for `in` / `out` requests exactly the kernel's readable / writable bit. -/
+theorem registration_requests_armed_bits (b : Backend) :
+    applyTable (fromUserTable b) Gen.userIn = kernelIn b ∧ applyTable (fromUserTable b) Gen.userOut = kernelOut b ∧
+    applyTable (fromUserTable b) (Gen.userIn ||| Gen.userOut) = kernelIn b ||| kernelOut b := by
+  cases b <;> decide
+
+/-- **Every kernel ready / hang-up / error report on an armed descriptor dispatches the armed handler**, on each
+back-end: composing the generated translation table with run_one's dispatch loop, the readable handler is queued
+(with success, or `select_failed` when the translated event carries `err`) and its slot emptied; same for the
+writeable handler. -/
+theorem kernel_report_dispatches (b : Backend) (s : St) (fd k : Nat) (t : Tok) (hk : k < 32) :
+    ((ioGet s.map fd).rd = some t → k &&& readDone b ≠ 0 →
+        (∃ c, QItem.ev t c 0 ∈ (dispatchFd s (kernelToEvent b fd k)).queue) ∧
+        (ioGet (dispatchFd s (kernelToEvent b fd k)).map fd).rd = none) ∧
+    ((ioGet s.map fd).wr = some t → k &&& writeDone b ≠ 0 →
+        (∃ c, QItem.ev t c 0 ∈ (dispatchFd s (kernelToEvent b fd k)).queue) ∧
+        (ioGet (dispatchFd s (kernelToEvent b fd k)).map fd).wr = none) := by
+  have hnl := kernel_report_not_lost b ⟨k, hk⟩
+  have hrd := ready_dispatches s (kernelToEvent b fd k) t rfl
+  constructor
+  · intro harm hdone
+    have := hrd.1 harm (hnl.1 hdone)
+    exact ⟨⟨_, this.1⟩, this.2⟩
+  · intro harm hdone
+    have := hrd.2 harm (hnl.2 hdone)
+    exact ⟨⟨_, this.1⟩, this.2⟩
+
 /-! ## exactly once, if the loop keeps running -/
 
 /-- **Exactly once under fairness.**  Take any reachable state in which the loop has not been stopped and a
